@@ -97,6 +97,7 @@ void harness(void) {
   static word m[NR * W];
   ref_from_mzd(m, W, M);
   int d = vin_range(0, NR - 1), s = vin_range(0, NR - 1);
+  if (!VOWNED(M)) VASSUME(d != s); /* "adding one row to ANOTHER": on a view, adding a row to itself is outside the stated operation */
 #ifdef NOOFFSET
   int c = 0;
   mzd_row_add(M, s, d);
